@@ -2,6 +2,7 @@ import CwPlus.Lemmas.Ics20
 import CwPlus.Lemmas.Ics20Migrate
 import CwPlus.Lemmas.Ics20Env
 import CwPlus.Lemmas.Ics20TotalSent
+import CwPlus.Lemmas.Ics20Ledger
 /-!
 # C11 — cw20-ics20: escrow always covers outstanding vouchers, channel by channel
 
@@ -770,5 +771,101 @@ stored version stays 0.13.0 and the state stays (trivially) solvent. -/
 example : (run wL [(b0, .connect "channel-1" ICS20_VERSION none false {}), (b0, .migrate none)]).st.version = ⟨0, 13, 0, none⟩ ∧
     ((wL.step b0 (.connect "channel-1" ICS20_VERSION none false {})).exec b0 (.migrate none)).tag = "multiplechannels" := by
   decide
+
+/-! ## All histories (no `admissible` filter); "escrowed" without re-baselining
+
+`runU` (Lemmas/Ics20Ledger.lean) carries the same ghosts as `runG` over *every* op of the history: a forged,
+repeated or stale acknowledgement / timeout is executed like any other transaction.  Its world is the
+plain history `run`. -/
+
+/-- **C11, channel_ledger / paidOut ≤ escrowed on every history** (clause "tokens paid out on a channel
+never exceed the tokens escrowed on it", without the IBC-core assumption `admissible`): the ghost history
+over all ops has the plain history `run w ops` as its world, and on it, per channel and denomination,
+`outstanding + paidOut + swallowed = escrowed` and `paidOut ≤ escrowed` — also when acknowledgements or
+timeouts are forged, repeated, or name packets that were never sent. -/
+theorem channel_ledger_all_histories (w : World) (ops : List (Block × Op)) (c : String) (d : Denom) :
+    (runU (w, Ghost.init w) ops).1 = run w ops ∧
+    outstanding (run w ops).st c d + (runU (w, Ghost.init w) ops).2.paidOut (c, d)
+      + (runU (w, Ghost.init w) ops).2.swallowed (c, d) = (runU (w, Ghost.init w) ops).2.sent (c, d) ∧
+    (runU (w, Ghost.init w) ops).2.paidOut (c, d) ≤ (runU (w, Ghost.init w) ops).2.sent (c, d) := by
+  have e : (runU (w, Ghost.init w) ops).1 = run w ops := runU_fst (w, Ghost.init w) ops
+  have h := runU_ledger ops (ledgerInv_init w)
+  have h1 := h.1 (c, d); have h2 := h.2 (c, d)
+  rw [e] at h1
+  refine ⟨e, ?_, ?_⟩
+  · rw [outstanding_eq]; omega
+  · omega
+
+/-- **C11, a migration of a current-version contract does not re-baseline `escrowed`**: when the stored
+version is newer than 0.13.0 and the ledger is consistent, the ghost step of `migrate` leaves `sent` — the
+"escrowed" side of `channel_ledger` — exactly as it was (with and without the `admissible` filter). -/
+theorem migrate_keeps_escrowed {w : World} {g : Ghost} (blk : Block) (gas : Option Nat)
+    (hv : PostV3 w) (hi : LedgerInv (w, g)) :
+    (stepG (w, g) blk (.migrate gas)).2.sent = g.sent ∧ (stepU (w, g) blk (.migrate gas)).2.sent = g.sent := by
+  have key : (stepU (w, g) blk (.migrate gas)).2.sent = g.sent := by
+    unfold stepU
+    cases hx : w.exec blk (.migrate gas) with
+    | error e => rfl
+    | ok r => obtain ⟨w', o⟩ := r; exact update_migrate_sent_postV3 hv hi hx
+  exact ⟨by rw [stepG_eq_stepU (by rfl)]; exact key, key⟩
+
+/-- **C11, "escrowed" is the sum of the accepted transfers** (closes the re-baselining gap of
+`channel_ledger` for every contract that does not come from a release ≤ 0.13.0): from a start state at a
+stored version newer than 0.13.0, on every history — `migrate` ops anywhere — the `escrowed` side of the
+ledger is what was outstanding at the start plus `sentOf`, the sum of the packet amounts of the accepted
+transfers on that channel and denomination, read off the transaction outcomes. -/
+theorem escrowed_is_sum_of_transfers (w : World) (ops : List (Block × Op)) (hv : PostV3 w) (c : String) (d : Denom) :
+    (runU (w, Ghost.init w) ops).2.sent (c, d) = outstanding w.st c d + sentOf w ops (c, d) :=
+  runU_sent_postV3 (wg := (w, Ghost.init w)) ops hv (ledgerInv_init w) (c, d)
+
+/-- **C11, channel ledger of a freshly instantiated contract**: on every history after `instantiate`,
+`outstanding + paidOut + swallowed = Σ accepted transfers` per channel and denomination, hence
+`paidOut ≤ Σ accepted transfers`: nothing in the statement is defined through the books. -/
+theorem channel_ledger_fresh {m : InstMsg} {s : State} (hi : instantiate m = .ok s) (w : World)
+    (ops : List (Block × Op)) (c : String) (d : Denom) :
+    outstanding (run { w with st := s } ops).st c d + (runU ({ w with st := s }, Ghost.init { w with st := s }) ops).2.paidOut (c, d)
+      + (runU ({ w with st := s }, Ghost.init { w with st := s }) ops).2.swallowed (c, d) = sentOf { w with st := s } ops (c, d) ∧
+    (runU ({ w with st := s }, Ghost.init { w with st := s }) ops).2.paidOut (c, d) ≤ sentOf { w with st := s } ops (c, d) := by
+  obtain ⟨_, h1, h2⟩ := channel_ledger_all_histories { w with st := s } ops c d
+  have h3 := escrowed_is_sum_of_transfers { w with st := s } ops (instantiate_postV3S hi) c d
+  have h0 : outstanding s c d = 0 := by
+    simp [instantiate] at hi
+    obtain ⟨_, allow, _, rfl⟩ := hi
+    rfl
+  simp only [h0] at h3
+  omega
+
+/-- **C11, solvency of a freshly instantiated contract** (`instantiate_solvent` composed with
+`solvency_with_migration`): after an accepted `instantiate`, in any world (any balances, tokens, faults),
+on every history with `migrate` ops anywhere, holdings ≥ Σ over channels of outstanding for every
+denomination, and the storage stays well-formed. -/
+theorem solvency_fresh {m : InstMsg} {s : State} (hi : instantiate m = .ok s) (w : World) (ops : List (Block × Op)) :
+    Solvent (run { w with st := s } ops) ∧ WellFormed (run { w with st := s } ops).st :=
+  solvency_with_migration { w with st := s } ops (instantiate_solvent hi w).1 (instantiate_wellFormed hi)
+
+/-- A forged timeout (for a packet nobody sent) appended to the demo history: `runG` skips it, `runU`
+executes it — the contract trusts IBC core and refunds 15 uatom to "mallory" — and the ledger identity
+still holds: 60 paid out of 60 escrowed on channel-0. -/
+def forged : Block × Op :=
+  (b0, .timeout "channel-0" (some ⟨15, .native "uatom", "bob", "mallory", none⟩) true true false)
+
+example : (runG (w0, Ghost.init w0) (hist ++ [forged])).1.bankBal "mallory" "uatom" = 0 ∧
+    (run w0 (hist ++ [forged])).bankBal "mallory" "uatom" = 15 ∧
+    outstanding (run w0 (hist ++ [forged])).st "channel-0" (.native "uatom") = 0 ∧
+    (runU (w0, Ghost.init w0) (hist ++ [forged])).2.paidOut ("channel-0", .native "uatom") = 60 ∧
+    (runU (w0, Ghost.init w0) (hist ++ [forged])).2.sent ("channel-0", .native "uatom") = 60 := by decide
+
+/-- `sentOf` on the demo history: 60 and 30 uatom escrowed on the two channels; on the legacy history the
+transfer of 5 before the migration. -/
+example : sentOf w0 hist ("channel-0", .native "uatom") = 60 ∧ sentOf w0 hist ("channel-1", .native "uatom") = 30 ∧
+    sentOf wL histL ("channel-0", .native "uatom") = 5 := by decide
+
+/-- `PostV3` is needed in `escrowed_is_sum_of_transfers`: from the 0.13.0 state `wL` the migration books
+the 60 uatom in flight, so `sent` (105) exceeds start + accepted transfers (40 + 5). -/
+example : (runU (wL, Ghost.init wL) histL).2.sent ("channel-0", .native "uatom") = 105 ∧
+    outstanding wL.st "channel-0" (.native "uatom") + sentOf wL histL ("channel-0", .native "uatom") = 45 := by decide
+
+/-- a fresh instantiation to which `channel_ledger_fresh` / `solvency_fresh` apply -/
+example : ∃ s, instantiate ⟨3600, ⟨true, "gov"⟩, [(⟨true, "T1"⟩, none)], some 100000⟩ = .ok s := ⟨_, rfl⟩
 
 end CwPlus.Props.C11
